@@ -134,7 +134,9 @@ func (c *ctx) shutdown() {
 			s.haveBase = false
 			s.since = e.T
 			s.stale = true
-		case "close":
+		case "close", "close-begin":
+			// with the close seam armed the call can take a while: the server decided to
+			// close when it called Close
 			if s.closedAt < 0 {
 				s.closedAt = e.T
 			}
